@@ -30,6 +30,21 @@ func genC11(t *rapid.T) C11Case {
 		maxD = 20000
 	}
 	c.X = h.GenAny(t, "x", maxD)
+	if h.Rare(t, "hugelit", 150) {
+		// literals of ten thousand digits and more (block-wise scanning of long literals has its own thresholds)
+		n := rapid.SampledFrom([]int{9728, 9747, 9800, 9822, 10000, 12000, 19456, 19500}).Draw(t, "hugen") + rapid.IntRange(-19, 19).Draw(t, "hugeoff")
+		c.X = h.Spec{F: "f", D: h.GenDigitsN(t, "huged", n), Neg: rapid.Bool().Draw(t, "hugeneg"), M: h.GenMode(t, "hugem")}
+		c.X.P = uint(len(c.X.D))
+		if c.Fmt == "f" {
+			c.X.E = int64(rapid.IntRange(-100, 100).Draw(t, "hugee"))
+		} else {
+			c.X.E = h.GenExp(t, "hugee2")
+		}
+		c.Fmt = rapid.SampledFrom([]string{"e", "g", "f", "p", "text", "json"}).Draw(t, "hugefmt")
+		if c.Fmt == "f" {
+			c.X.E = int64(rapid.IntRange(-100, 100).Draw(t, "hugee3"))
+		}
+	}
 	if c.X.F == "f" {
 		if c.Fmt == "f" {
 			c.X.E = h.GenExpModerate(t, "xe", 5000)
@@ -110,6 +125,22 @@ func checkC11(c C11Case, o *h.Obs) *h.Fail {
 	if got.Malformed != "" {
 		return h.Failf("malformed", "%v", got)
 	}
+	// parsing the same text again into the same receiver (which now owns a buffer of the right size) gives the same value
+	if c.Fmt != "text" && c.Fmt != "json" {
+		if d, _, err := z.Parse(out, c.Base); err != nil || d != z {
+			return h.Failf("parse", "second Parse into the same receiver: %v", err)
+		}
+		if again := h.Read(z); !again.SameButWords(got) {
+			return h.Failf("reparse", "format %s: parsing %q twice into the same receiver gives %v, then %v", c.Fmt, h.FirstN(out, 200), got.Val(), again.Val())
+		}
+	} else if c.Fmt == "text" {
+		if err := z.UnmarshalText([]byte(out)); err != nil {
+			return h.Failf("parse", "second UnmarshalText into the same receiver: %v", err)
+		}
+		if again := h.Read(z); !again.SameButWords(got) {
+			return h.Failf("reparse", "UnmarshalText of %q twice into the same receiver gives %v, then %v", h.FirstN(out, 200), got.Val(), again.Val())
+		}
+	}
 	if !got.Val().Equal(xv) {
 		return h.Failf("roundtrip", "format %s: %v printed as %q parsed back as %v", c.Fmt, xv, h.FirstN(out, 300), got.Val())
 	}
@@ -136,7 +167,7 @@ func checkC11(c C11Case, o *h.Obs) *h.Fail {
 	return nil
 }
 
-const ruleC11 = "rapid-generated Decimals (clean and dirty zeros/infinities, 1..3000 (quick) / 20000 (thorough) digits, word patterns with interior and trailing zero words, extra precision so that whole low words are zero, exponents over the whole int32 range for e/E/g/G/p/b/MarshalText/JSON and |exp| <= 5000 for f) x format x parse base {0,10} x receiver mode x receiver precision MinPrec..MinPrec+100. Oracle: round trip (form, sign, digits, exponent identical, Acc()==Exact, Append==Text) and the digit-count clause (significand characters without layout zeros == x's MinPrec digits). Non-trivial = finite with more than one word, or containing a zero word, or exponent within 60 of a range end."
+const ruleC11 = "rapid-generated Decimals (clean and dirty zeros/infinities, 1..3000 (quick) / 20000 (thorough) digits, word patterns with interior and trailing zero words, extra precision so that whole low words are zero, about one case in 150 with 9700..19500 digits, exponents over the whole int32 range for e/E/g/G/p/b/MarshalText/JSON and |exp| <= 5000 for f) x format x parse base {0,10} x receiver mode x receiver precision MinPrec..MinPrec+100. Oracle: round trip (form, sign, digits, exponent identical, Acc()==Exact, Append==Text, a second parse of the same text into the same, now roomy, receiver gives the same value) and the digit-count clause (significand characters without layout zeros == x's MinPrec digits). Non-trivial = finite with more than one word, or containing a zero word, or exponent within 60 of a range end."
 
 var propC11 = &h.Prop[C11Case]{ID: "C11", Rule: ruleC11, Gen: genC11, Check: checkC11, Matchers: map[string]func(C11Case) bool{}}
 
